@@ -18,6 +18,10 @@ RombCases == {[fam |-> "romberg", p |-> Mono(d), a |-> R(e[1]), b |-> R(e[2]), e
         \cup {[fam |-> "romberg", p |-> p, a |-> R(e[1]), b |-> R(e[2]), eps |-> eps, nmax |-> k] :
                 p \in {<<0, 0, 0 - 1, 0, 1>>, <<1, 0 - 1, 2>>, <<0, 0, 0, 1>>, Mono(6)}, e \in {<<0 - 1, 1>>, <<0, 2>>},
                 eps \in {<<1, 1000>>, <<1, 64>>}, k \in 2..5}
+\* deep level budgets without early stop (eps = 0): by Inv_RombergExact (checked for 2..4 levels; a theorem for every k: Richardson
+\* extrapolation preserves exactness) a cubic is integrated exactly at EVERY budget; the tableau itself (2^19 nodes) is not built here
+DeepCases == {[fam |-> "romberg_deep", p |-> p, a |-> R(e[1]), b |-> R(e[2]), nmax |-> k] :
+                p \in {Mono(0), Mono(1), Mono(2), Mono(3), <<1, 0 - 1, 2>>, <<0, 3, 0, 0 - 1>>}, e \in {<<0, 1>>, <<0 - 1, 1>>, <<2, 0 - 1>>}, k \in {8, 12, 16, 17, 18, 20}}
 GaussCases == {[fam |-> "quad5", p |-> Mono(d), a |-> R(e[1]), b |-> R(e[2])] : d \in 0..DMax, e \in {<<0, 1>>, <<0 - 1, 1>>, <<2, 0 - 1>>, <<1, 1>>, <<0 - 1, 2>>}}
         \cup {[fam |-> "quad5", p |-> p, a |-> R(e[1]), b |-> R(e[2])] : p \in Polys, e \in {<<0 - 2, 2>>, <<3, 0 - 3>>}}
         \cup {[fam |-> "quad5", p |-> p, a |-> R(e[1]), b |-> R(e[2])] : p \in {<<1>>, <<3, 0 - 2>>, <<0, 0, 1>>}, e \in {<<0 - 500, 500>>, <<250, 0 - 500>>, <<1000, 1000>>}}
@@ -29,7 +33,7 @@ SampCases == {[fam |-> "samples", y |-> [i \in 1..n |-> ((i * i + 3 * i) % 7) - 
                         \* repeated abscissae: zero-width panels across which the ordinate jumps (step functions sampled on both sides)
                         <<0, 4, 4, 8>>, <<0, 0, 4>>, <<0, 4, 8, 8>>, <<2, 2, 2, 6, 6, 10>>, <<0 - 4, 0, 0, 0, 4, 12, 12>>}}
 
-Init == c \in TrapzCases \cup RombCases \cup GaussCases \cup SampCases
+Init == c \in TrapzCases \cup RombCases \cup DeepCases \cup GaussCases \cup SampCases
 Next == UNCHANGED c
 Spec == Init /\ [][Next]_c
 
@@ -57,6 +61,7 @@ Emit ==
     [] c.fam = "romberg" -> LET r == RombergCode(c.p, c.a, c.b, c.eps, c.nmax) IN
                             PrintT(<<"CASE", ToJson([fam |-> "romberg", p |-> c.p, a |-> RJ(c.a), b |-> RJ(c.b), eps |-> RJ(c.eps), nmax |-> c.nmax,
                                      rule |-> RJ(r.v), level |-> r.level, judged |-> r.margin_ok, exact |-> RJ(Exact(c.p, c.a, c.b))])>>)
+    [] c.fam = "romberg_deep" -> PrintT(<<"CASE", ToJson([fam |-> "romberg_deep", p |-> c.p, a |-> RJ(c.a), b |-> RJ(c.b), nmax |-> c.nmax, exact |-> RJ(Exact(c.p, c.a, c.b))])>>)
     [] c.fam = "quad5" -> PrintT(<<"CASE", ToJson([fam |-> "quad5", p |-> c.p, a |-> RJ(c.a), b |-> RJ(c.b), exact |-> RJ(Exact(c.p, c.a, c.b))])>>)
     [] c.fam = "samples" ->
          LET n == Len(c.y)
